@@ -16,7 +16,7 @@ package c15
 // entries that the leaf satisfies. Control: the same layout with the
 // unsupported entry replaced by a supported one the leaf satisfies must verify.
 // Oracles: the rule above (all key types) and, for ECDSA chains, Go's
-// crypto/x509 on the same DER (verdicts must agree, critical or not).
+// crypto/x509 on the same DER (no chain where crypto/x509 finds none).
 
 import (
 	"crypto/ecdsa"
@@ -191,10 +191,18 @@ func checkNCRaw(c ncRawCase, r *h.Rec) error {
 		gp := x509.NewCertPool()
 		gp.AddCert(gca)
 		_, gerr := gleaf.Verify(x509.VerifyOptions{Roots: gp, CurrentTime: now, KeyUsages: []x509.ExtKeyUsage{x509.ExtKeyUsageAny}})
-		if (gerr == nil) != (verr == nil) {
-			return fmt.Errorf("verdict differs from crypto/x509 on the same DER: library err=%v, crypto/x509 err=%v; %s", verr, gerr, desc)
+		// One-sided: a chain where crypto/x509 finds none is unsound. The other way round
+		// is not a violation of the property (a verifier that can evaluate a subtree type
+		// crypto/x509 ignores in a non-critical extension is stricter, not wrong); the
+		// controls above already demand acceptance where every constraint is satisfied.
+		if gerr != nil && verr == nil {
+			return fmt.Errorf("a chain is returned where crypto/x509 on the same DER finds none (%v); %s", gerr, desc)
 		}
-		r.Label("ncraw:agrees-with-crypto/x509")
+		if (gerr == nil) == (verr == nil) {
+			r.Label("ncraw:agrees-with-crypto/x509")
+		} else {
+			r.Label("ncraw:stricter-than-crypto/x509")
+		}
 	}
 	return nil
 }
